@@ -72,13 +72,25 @@ def theorems_of(module_path):
     return re.findall(r"^theorem\s+([A-Za-z0-9_.']+)", src, flags=re.M)
 
 
+def prop_modules(prop):
+    """Lean modules that hold the property theorems of `prop`: Props/<prop>.lean and, where a theorem needs imports the
+    main file cannot have (import cycles), Props/<prop>_<Topic>.lean."""
+    import glob
+    d = os.path.join(LEAN_DIR, "Pathrs", "Proofs", "Props")
+    files = [os.path.join(d, f"{prop}.lean")] + sorted(glob.glob(os.path.join(d, f"{prop}_*.lean")))
+    return [(f, "Pathrs.Proofs.Props." + os.path.basename(f)[:-5]) for f in files if os.path.exists(f)]
+
+
 def audit_axioms(prop):
-    """Run `#print axioms` on every theorem of Props/<prop>.lean."""
-    mod = os.path.join(LEAN_DIR, "Pathrs", "Proofs", "Props", f"{prop}.lean")
-    names = theorems_of(mod)
+    """Run `#print axioms` on every theorem of Props/<prop>.lean (and Props/<prop>_*.lean)."""
+    mods = prop_modules(prop)
+    names = []
+    for f, _ in mods:
+        names += theorems_of(f)
     tmp = os.path.join(CACHE, f"audit_{prop}.lean")
     with open(tmp, "w") as f:
-        f.write(f"import Pathrs.Proofs.Props.{prop}\n")
+        for _, m in mods:
+            f.write(f"import {m}\n")
         for n in names:
             f.write(f"#print axioms {n}\n")
     rc, out = sh(["lake", "env", "lean", tmp], cwd=LEAN_DIR, timeout=1800)
